@@ -1,6 +1,6 @@
 SPECIFICATION Spec
 CONSTANTS MaxRecs = 2 MaxCalls = 2 MaxRuns = 2 CommitBeforeReturn = TRUE TolerantVersionRead = TRUE
-          AtomicUpgrade = TRUE Legacy = FALSE MaxBatches = 0 GateResetOnError = TRUE ReloadWait = 1
+          AtomicUpgrade = TRUE Legacy = FALSE MaxBatches = 0 GateResetOnError = TRUE ReloadWait = 1 MaxDepth = 1 EnterKeepsPending = TRUE ParentFirst = TRUE
 INVARIANT TypeOK
 INVARIANT AckedDurable
 INVARIANT NoPartialRecord
